@@ -196,6 +196,10 @@ func (f *Frame) next(x *ssa.Next) {
 	f.assume(implies(okc, and(app("select", dom, k), not(app("select", vis, k)))))
 	f.assume(fmt.Sprintf("(=> (not %s) (forall ((k %s)) (! (=> (select %s k) (select %s k)) :pattern ((select %s k)))))", okc, mi.kSort, dom, vis, dom))
 	f.assume(eq(okc, app("<", cnt, ln)))
+	if li := f.loops[f.curBlock]; li != nil && li.modKeys != nil && !li.modKeys[mi.dom] {
+		// no map of this type changes inside the loop, so every key visited so far is still a key of the map
+		f.assume(fmt.Sprintf("(forall ((k %s)) (! (=> (select %s k) (select %s k)) :pattern ((select %s k))))", mi.kSort, vis, dom, vis))
+	}
 	if mi.kSort == "Int" {
 		f.assume(implies(okc, f.wf(k, mi.kType)))
 	}
